@@ -108,3 +108,18 @@ Proof.
     apply Z.mul_pos_pos; apply Z.pow_pos_nonneg; lia. }
   split; [exact Hd|]. apply rne_half. exact Hd.
 Qed.
+
+(* ---- the executable reader: cif::as_number with the reference conversion plugged in *)
+From GV Require Import Num.DecParseProofs.
+Theorem as_number_bits_value : forall s,
+  as_number_bits s = match cif_value s with Some d => nearest_double d | None => None end.
+Proof. intros s. unfold as_number_bits. apply as_number_spec. Qed.
+
+(* zero keeps its sign and is never out of range; an explicit overflow is rejected *)
+Example as_number_examples :
+  as_number_bits [45; 48; 46; 48] = Some (2 ^ 63) /\
+  as_number_bits [49; 46; 53; 40; 51; 41] = Some 0x3ff8000000000000 /\
+  as_number_bits [49; 101; 57; 57; 57] = None /\ as_number_bits [49; 101; 45; 57; 57; 57] = None /\
+  as_number_bits [43; 45; 49] = None /\ as_number_bits [49; 46; 53; 40; 41] = None /\
+  as_number_v0_bits [43; 45; 49] = Some 0xbff0000000000000.
+Proof. repeat split; vm_compute; reflexivity. Qed.
